@@ -1,8 +1,11 @@
 package main
 
 import (
+	"encoding/json"
 	"fmt"
 	"math/rand"
+	"os"
+	"path/filepath"
 	"sort"
 	"strconv"
 	"strings"
@@ -400,6 +403,61 @@ func driveEvents(c *hx.Ctx) error {
 		sh.Add(evCaseTerm(cs), cs)
 		if why := historyOracle(cs); why != "" {
 			c.ImplFail(cs.Stream, why, cs)
+		}
+	}
+
+	// --- stream "corpus": committed boundary histories
+	cr := c.Rand("events/corpus")
+	cshard := c.NewShard("corpus", imports, "ev_case", "corr_events", "holds_events", 40)
+	for _, f := range corpusFiles("C06") {
+		var l []struct {
+			What    string `json:"what"`
+			Plugins []struct {
+				Idx  string `json:"idx"`
+				Raw  int32  `json:"raw"`
+				Kind string `json:"kind"`
+			} `json:"plugins"`
+			Phase1 []int `json:"phase1"`
+			Phase2 []int `json:"phase2"`
+			G      int   `json:"goroutines"`
+		}
+		raw, err := os.ReadFile(f)
+		if err == nil {
+			err = json.Unmarshal(raw, &l)
+		}
+		if err != nil {
+			c.HarnessError("corpus %s: %v", f, err)
+			continue
+		}
+		for h, k := range l {
+			plan := histPlan{g: k.G}
+			if plan.g < 1 {
+				plan.g = 1
+			}
+			for i, p := range k.Plugins {
+				kind := p.Kind
+				if kind != "raw" {
+					kind = "stub"
+				}
+				plan.plugins = append(plan.plugins, evPlugin{ID: i + 1, Idx: p.Idx, Name: fmt.Sprintf("K%d", i+1), Raw: p.Raw, Kind: kind})
+			}
+			toEv := func(l []int) []api.Event {
+				var o []api.Event
+				for _, e := range l {
+					if e >= 1 && e <= 13 {
+						o = append(o, api.Event(e))
+					}
+				}
+				return o
+			}
+			plan.phase1, plan.phase2 = toEv(k.Phase1), toEv(k.Phase2)
+			cs, err := runHistory(c, cr, "corpus", h, plan)
+			if err != nil {
+				return err
+			}
+			emit(cshard, cs)
+			c.Eval(fmt.Sprintf("corpus/%s/%d", filepath.Base(f), h), true)
+			c.Count("events.corpus", 1)
 		}
 	}
 
